@@ -41,6 +41,7 @@ type job struct {
 	Recur   *recurCase   `json:"recur,omitempty"`
 	Access  *accessCase  `json:"access,omitempty"`
 	Witness string       `json:"witness,omitempty"`
+	Sweep   *sweepCase   `json:"sweep,omitempty"`
 }
 
 // escaped is one Go panic that crossed otto's public API (recovered inside the worker).
@@ -124,6 +125,10 @@ func serve(raw json.RawMessage) json.RawMessage {
 	case "access":
 		jr := openJournal(j.Journal)
 		res = runAccess(*j.Access, jr)
+		jr.close()
+	case "sweep":
+		jr := openJournal(j.Journal)
+		res = runSweep(*j.Sweep, jr)
 		jr.close()
 	case "witness":
 		res = runWitness(j.Witness)
